@@ -663,7 +663,9 @@ func loopFn(fl flavour, fset *token.FileSet, fd *ast.FuncDecl) string {
 	}
 	preS := t.block(pre)
 	// for i, e := other.Len(), other.F(); i > 0; i, e = i-1, e.G()
-	bad := func() { fail("%s: loop header is not `for i, e := other.Len(), other.F(); i > 0; i, e = i-1, e.G()`", t.pos(loop)) }
+	bad := func() {
+		fail("%s: loop header is not `for i, e := other.Len(), other.F(); i > 0; i, e = i-1, e.G()`", t.pos(loop))
+	}
 	init, ok := loop.Init.(*ast.AssignStmt)
 	if !ok || init.Tok != token.DEFINE || len(init.Lhs) != 2 || len(init.Rhs) != 2 {
 		bad()
